@@ -234,26 +234,72 @@ func c10Appends(c *Check, pkgPath, rule string) {
 	c.Counts[rule+"_append_sites"] = n
 }
 
-// storesParam: callee stores (directly) the parameter that receives v.
+// storesParam: callee retains the parameter that receives v: the value (also
+// when spilled into a cell and read back, possibly inside a closure of the
+// callee) is stored into a struct field, a map or a slice element.
 func storesParam(callee *ssa.Function, site ssa.CallInstruction, v ssa.Value) bool {
 	for ai, a := range site.Common().Args {
 		if a != v || ai >= len(callee.Params) {
 			continue
 		}
-		prm := callee.Params[ai]
-		for _, r := range *prm.Referrers() {
-			switch x := r.(type) {
-			case *ssa.Store:
-				if x.Val == ssa.Value(prm) {
+		seen := map[ssa.Value]bool{}
+		var retained func(val ssa.Value, d int) bool
+		retained = func(val ssa.Value, d int) bool {
+			if d > 8 || seen[val] || val.Referrers() == nil {
+				return false
+			}
+			seen[val] = true
+			for _, r := range *val.Referrers() {
+				switch x := r.(type) {
+				case *ssa.Store:
+					if x.Val != val {
+						continue
+					}
 					if _, _, _, isField := fieldOfAddr(x.Addr); isField {
 						return true
 					}
-				}
-			case *ssa.MapUpdate:
-				if x.Value == ssa.Value(prm) {
-					return true
+					if _, isIdx := x.Addr.(*ssa.IndexAddr); isIdx {
+						return true
+					}
+					if al, ok := x.Addr.(*ssa.Alloc); ok {
+						// spill cell: loads here and in closures capturing the cell
+						for _, r2 := range *al.Referrers() {
+							switch y := r2.(type) {
+							case *ssa.UnOp:
+								if retained(y, d+1) {
+									return true
+								}
+							case *ssa.MakeClosure:
+								fn, _ := y.Fn.(*ssa.Function)
+								if fn == nil {
+									continue
+								}
+								for k, bnd := range y.Bindings {
+									if bnd == ssa.Value(al) && k < len(fn.FreeVars) {
+										for _, r3 := range *fn.FreeVars[k].Referrers() {
+											if ld, ok := r3.(*ssa.UnOp); ok && retained(ld, d+1) {
+												return true
+											}
+										}
+									}
+								}
+							}
+						}
+					}
+				case *ssa.MapUpdate:
+					if x.Value == val {
+						return true
+					}
+				case *ssa.Phi:
+					if retained(x, d+1) {
+						return true
+					}
 				}
 			}
+			return false
+		}
+		if retained(callee.Params[ai], 0) {
+			return true
 		}
 	}
 	return false
